@@ -18,6 +18,7 @@ mod streams;
 mod pool;
 mod connleaf;
 mod poolmt;
+mod cfgp;
 mod server;
 mod tls;
 mod tcpc;
@@ -54,6 +55,7 @@ fn gen(stream: &str, seed: u64, n: u64) -> Vec<String> {
                 "pool" => pool::gen(&mut r, i),
                 "conn" => connleaf::gen(&mut r, i),
                 "poolmt" => poolmt::gen(&mut r, i),
+                "cfgp" => cfgp::gen(&mut r, i),
                 "srv" => server::gen(&mut r, i),
                 "tls" => tls::gen(&mut r, i),
                 "tcpc" => tcpc::gen(&mut r, i),
@@ -90,6 +92,7 @@ fn run_line(line: &str) -> String {
         "pool" => pool::run(&toks),
         "conn" => connleaf::run(&toks),
         "poolmt" => poolmt::run(&toks),
+        "cfgp" => cfgp::run(&toks),
         "srv" => server::run(&toks),
         "tls" => tls::run(&toks),
         "tcpc" => tcpc::run(&toks),
